@@ -212,6 +212,10 @@ def sp_pack(o):
         return o.isoformat()
     if isinstance(o, datetime.date):
         return o.isoformat()
+    if type(o).__module__.startswith("Pyro5."):
+        # Pyro registers its own classes with serpent (pyro_class_serpent_serializer): they are written as the class dict
+        from Pyro5 import serializers as _ser
+        return sp_pack(_ser.SerializerBase.class_to_dict(o))
     raise TypeError("serpent model: type %s is outside the modelled data domain" % type(o).__name__)
 
 
